@@ -1,7 +1,7 @@
 (* C17 - computed examples: the hypotheses of the frame theorem on the states the model's Subinclude produces. *)
 From Coq Require Import String.
 From PlzV Require Import Base.Harness Model.C16_Syntax Model.C16_Ops Model.C16_Prim Model.C16_Eval Model.C16.
-From PlzV Require Import Proof.C17 Proof.C17_Inv Proof.C17_Main Proof.C17_NoConst.
+From PlzV Require Import Proof.C17 Proof.C17_Inv Proof.C17_Main Proof.C17_NoConst Proof.C17_Iso.
 Local Open Scope list_scope.
 Local Open Scope Z_scope.
 
@@ -32,6 +32,7 @@ Lemma frozen_examples :
   /\ forallb no_const [xa; xb] = true
   /\ length (exports_of (state_after d_lib)) = 3%nat
   /\ no_interference FUEL [(lbl, d_lib)] xa xb = true
+  /\ rest_invb [(lbl, d_lib)] (Dead4 [] [0%nat] [] []) (state_after d_lib) = true
   /\ frozen_stateb [(lbl, d_nested)] [] [] (state_after d_nested) = false
   /\ frozen_stateb [(lbl, d_mk)] [] [] (state_after d_mk) = false
   /\ frozen_stateb [(lbl, d_dflt)] [] [] (state_after d_dflt) = false.
